@@ -58,7 +58,7 @@ CHECKS = {
          "2-3 tenants (one mount point a prefix of another) x wildcard and tenant-looking filters/topics x shared client identifiers x publish / retained / will (connection loss and node failure); no client may hold another tenant's tag, own-tenant deliveries must match the filter with byte-identical topics, shared-identifier sessions must stay served.",
          "Mount point = user name through the harness's authentication handler.", "5/C17"),
  "C18": ("exploration", "structure-aware mutation corpus sent to a broker in a child process; crash = child death (reported by the parent with the logged hex), liveness = witness clients' PINGRESP and tagged round trips",
-         "About 1900 (quick) / 60000 (thorough) hostile streams incl. truncation at every offset, type/flag nibble sweeps, remaining-length and length-prefix corruption, protocol violations and seeded havoc, each on a fresh connection; forced expiry sweeps after every batch flush what the hostile sessions left in flight; two witness clients must stay connected, answer pings and complete publish/receive round trips.",
+         "About 1900 (quick) / 21000 (thorough) hostile streams incl. truncation at every offset, type/flag nibble sweeps, remaining-length and length-prefix corruption, protocol violations and seeded havoc, each on a fresh connection; forced expiry sweeps after every batch flush what the hostile sessions left in flight; two witness clients must stay connected, answer pings and complete publish/receive round trips.",
          "A client that stops reading is out of scope. Attribution of a crash is to the last logged streams.", "5/C18"),
  "C15": ("fault_enumeration", "offline checker over per-incarnation event logs of real consumer processes killed (SIGKILL to self) at exact hook points",
          "Chains of separate processes consume one on-disk log; each but the last is killed at one of four points of Consume for offsets around batch edges, segment rolls and the truncation point, or cancelled after N hand-overs, with appends in between; the logs must show contiguous hand-over with the right payloads, restart at c+1 (or c after a kill), and every appended offset handed over.",
